@@ -801,6 +801,32 @@ class World:
                 raise self.viol("C14.11 replace-result-not-registered", "C14.11", "the node returned by replace() is not registered under its id")
             if ASTNode.get_any(o.id) is o:
                 raise self.viol("C14.12 replace-original-still-registered", "C14.12", "replace() left the original registered")
+            if op.get("probe_fresh") and was_reg:
+                # differential form of "the id a fresh construction with the original absent would get": take the
+                # result out of the registry again and really construct the same node afresh over the same children
+                nid = new.id
+                new.detach_self()
+                self.inf(new).reg = False
+                fspec = {"c": cname(new), "p": {f.name: {"raw": getattr(new, f.name)} for f in U.PROP_FIELDS[cname(new)] if f.init}, "ch": {}, "o": origin_key(new.origin)}
+                for f in U.CHILD_FIELDS[cname(new)]:
+                    v = getattr(new, f.name)
+                    if f.kind in ("tuple", "fixed"):
+                        fspec["ch"][f.name] = [{"ref": {"h": op["out"], "path": [[f.name, i]]}} for i in range(len(v))]
+                    else:
+                        fspec["ch"][f.name] = None if v is None else {"ref": {"h": op["out"], "path": [[f.name, None]]}}
+                fresh = self.build(fspec)
+                twin = "with-twin" if not no_twin else "no-twin"
+                self.stats.probes["replace_fresh_probe:" + twin] += 1
+                if fresh.id != nid:
+                    raise self.viol(
+                        "C14.10 replace-id-not-fresh",
+                        f"C14.10:differential:{twin}",
+                        f"replace() gave id {nid}; a fresh construction of the same node with the original absent gets {fresh.id}",
+                        twin=twin,
+                    )
+                self.put(op["out"], "node", fresh, op.get("actor", "a0"))
+                del fresh
+                self.discover()
         self.stale_hint.append(op["n"]["h"])
         return "ok"
 
@@ -1097,6 +1123,28 @@ class Gen:
             spec = self.mutate(spec)
         return {"op": "construct", "spec": spec, "out": self.out(), "twin_of": ref["h"]}
 
+    def g_twinpair(self, actor: str) -> dict[str, Any] | None:
+        """A tree that holds a stale (detached / replaced-away) node AND its freshly built twin: two distinct
+        objects with the same id at two positions, differing at most in a non-comparable field."""
+        r = self.r("twinpair")
+        w = self.w
+        stale = [n for n, h in w.handles.items() if h.kind == "node" and not w.inf(h.obj).reg and len(walk(h.obj)) <= 6]
+        if not stale:
+            return self.g_detach_self(actor)
+        hname = r.choice(stale)
+        o = w.handles[hname].obj
+        if any(w.inf(x).reg and x is not o and x.id == o.id for x in w.last_reach):
+            return self.g_twin(actor)
+        tw = spec_of(o)
+        if tw["c"] == "Meta" and r.random() < 0.8:
+            tw["p"]["note"] = self.value("str")
+        items = [{"ref": {"h": hname, "path": []}}, tw]
+        if r.random() < 0.5:
+            items.reverse()
+        if r.random() < 0.4:
+            items.append(self.spec(0))
+        return {"op": "construct", "spec": {"c": "Seq", "p": {}, "ch": {"items": items}, "o": r.choice(self.cfg["origins"])}, "out": self.out(), "twinpair": True}
+
     def g_drop(self, actor: str) -> dict[str, Any] | None:
         r = self.r("drop")
         names = list(self.w.handles)
@@ -1189,7 +1237,10 @@ class Gen:
             return op
         if cls == "Boom":
             return {"op": "replace", "n": ref, "ch": {"a": {"v": self.value("str")}}, "out": self.out()}
-        return {"op": "replace", "n": ref, "ch": self._gen_changes(o, r), "out": self.out()}
+        op2: dict[str, Any] = {"op": "replace", "n": ref, "ch": self._gen_changes(o, r), "out": self.out()}
+        if self.cfg["prop"] == "C14" and r.random() < 0.5:
+            op2["probe_fresh"] = True
+        return op2
 
 
 
@@ -1365,7 +1416,7 @@ _OBS = {"findall": 1.0, "walkgen": 0.7, "gen_next": 0.7, "tree": 0.5, "obs": 2.0
 BASE_WEIGHTS = {
     "C03": {"construct": 5, "twin": 4, "drop": 3, "gc": 0.5, "detach_self": 4, "detach": 2.5, "duplicate": 2, "dc_replace": 2, "replace": 4,
             "ser": 1.5, "deser": 2, "crash": 1, "transform": 1, **_OBS},
-    "C14": {"construct": 5, "twin": 3, "drop": 2, "detach_self": 2, "detach": 1, "duplicate": 5, "dc_replace": 4, "replace": 5, "ser": 0.5, "deser": 0.5},
+    "C14": {"construct": 5, "twin": 3, "twinpair": 1.5, "drop": 2, "detach_self": 2.5, "detach": 1, "duplicate": 5, "dc_replace": 4, "replace": 5, "ser": 0.5, "deser": 0.5},
     "C10": {"construct": 5, "twin": 2, "drop": 2, "detach_self": 2, "detach": 1.5, "duplicate": 3, "dc_replace": 3, "replace": 3,
             "ser": 2, "deser": 2.5, "crash": 0.5, "transform": 3, "poke": 2, "findall": 1.5, "walkgen": 1, "gen_next": 1, "tree": 1, "obs": 5},
     "C01": {"construct": 6, "twin": 6, "drop": 2, "detach_self": 1.5, "detach": 1, "duplicate": 2, "dc_replace": 3, "replace": 2,
@@ -1444,7 +1495,7 @@ def make_config(rseed: int, prop: str, tier: str, faults: bool) -> dict[str, Any
         "pools": pools,
         "weights": weights,
         "formats": r.sample(list(FORMATS), r.choice([1, 2, 4])),
-        "ser_faults": prop in ("C03", "C10"),
+        "ser_faults": prop in ("C03", "C10", "C04"),
     }
 
 
@@ -1656,6 +1707,9 @@ def op_ser(self: World, op: dict[str, Any]) -> str:
         self.stats.probes["fault_fired:" + e.site] += 1
         return "raised:InjectedFault"
     except Exception as e:  # noqa: BLE001
+        if op.get("fault") and op["fault"]["site"] not in FAULTS.armed:
+            self.stats.probes["fault_fired:" + op["fault"]["site"]] += 1
+            return "raised:" + type(e).__name__
         if self.on("C04"):
             raise self.viol("C04.0 serialize-raised", f"C04.0:ser:{fmt}:{type(e).__name__}", f"{fmt} serialization raised {type(e).__name__}: {e}") from None
         raise Cut(f"serialize raised {type(e).__name__}: {e}") from None
@@ -1710,6 +1764,10 @@ def op_deser(self: World, op: dict[str, Any]) -> str:
         self.stats.probes["fault_fired:" + e.site] += 1
         return "raised:InjectedFault"
     except Exception as e:  # noqa: BLE001
+        if op.get("fault") and op["fault"]["site"] not in FAULTS.armed:
+            # the injected hook failure surfaced wrapped (mashumaro InvalidFieldValue)
+            self.stats.probes["fault_fired:" + op["fault"]["site"]] += 1
+            return "raised:" + type(e).__name__
         if judge and any(v in ("usurped", "ambiguous") for v in plan.values()):
             # a position whose id was taken over by another live node is outside the guarantee; whatever the
             # usurper does to its ancestors (e.g. a type error under RUNTIME_TYPE_CHECK) is not judged
